@@ -11,7 +11,8 @@ package sts
 //@ interface ReceiveLogger.WasReceived trusted
 //@   modifies nothing
 //@ interface ReceiveLogger.Parse trusted
-//@   modifies everything
+//@   callback 0
+//@   modifies nothing
 //@ interface SendLogger.Sent trusted
 //@   modifies nothing
 //@ interface SendLogger.WasSent trusted
